@@ -336,7 +336,8 @@ def check_C01(ctx, replay=None):
     if gen is None:
         ctx.regen_failed = "regeneration failed: " + log[-2000:]
     check_core_policy(ctx, "C01", "C01.v", ["C01_first_matching_group", "C01_errno_carries_eperm", "C01_other_actions_exact",
-                                            "C01_lists_means_name_with_that_number", "C01_first_in_policy_order", "C01_source_group_is_the_model"],
+                                            "C01_lists_means_name_with_that_number", "C01_first_in_policy_order", "C01_source_group_is_the_model",
+                                            "C01_source_return_value_is_the_model"],
                       ["names", "names", "names_long", "whole_table", "degenerate"],
                       "name-only policies (1..6 groups, 0..|table| names, all four tables, both byte orders), compiled by the implementation and the extracted model (instruction-exact comparison); every accepted program run on partition events (numbers of all listed names +-1, boundary numbers, foreign architectures) against the extracted decide; non-trivial = accepted policy with events evaluated",
                       replay=replay, gen=gen)
